@@ -136,7 +136,13 @@ func (r *Remote) pendingChan(key string, waiting bool) chan Message {
 
 func (r *Remote) handleRequest(msg *Message) error {
 	ctx := context.WithValue(context.Background(), ctxService, r)
-	resp := r.Server.Handle(ctx, msg)
+	server := r.Server
+	if server == nil {
+		// A Remote that only makes calls serves no methods, requests from
+		// the other side are answered with method not found.
+		server = &Server{}
+	}
+	resp := server.Handle(ctx, msg)
 	return r.Codec.WriteMessage(resp)
 }
 
